@@ -321,7 +321,7 @@ func randomReq(r *rand.Rand, protocol, codec string, kind svc.Kind) *hostileReq 
 }
 
 func c07(run *ev.Run) int {
-	run.SetRule("cases = crafted (method, HTTP version, headers, body) from three generators - grammar-based hostile requests (unknown/odd encodings, malformed timeouts, flags, lying lengths, truncated/undecodable/oversize/bomb payloads), mutations of recorded valid requests (bit flips, truncation, dropped headers, method/version/content-type changes), random bytes, undecodable JSON whose offending token is several KiB of multi-byte characters, valid requests under a Content-Length unrelated to the body, and requests that must be refused (bad timeout, unknown compression) arriving on a request body that stays open until the handler answers - x 3 protocols x 2 codecs x 4 kinds x 2 handler configurations; also user codecs named in mixed/upper case addressed in every spelling (valid, truncated, garbage, empty bodies); nine-digit timeouts in every unit; oracle: no panic, returns, response well-formed per reference decoder (or bare 405/415/505), user code <= 1x, received messages a prefix of the reference-decoded valid prefix, documented error classes never answered with success; distinct by (generator class, config, kind, outcome class)")
+	run.SetRule("cases = crafted (method, HTTP version, headers, body) from three generators - grammar-based hostile requests (unknown/odd encodings, malformed timeouts, flags, lying lengths, truncated/undecodable/oversize/bomb payloads), mutations of recorded valid requests (bit flips, truncation, dropped headers, method/version/content-type changes), random bytes, undecodable JSON whose offending token is several KiB of multi-byte characters, valid requests under a Content-Length unrelated to the body, and requests that must be refused (bad timeout, unknown compression) arriving on a request body that stays open until the handler answers - x 3 protocols x 2 codecs x 4 kinds x 2 handler configurations; also user codecs named in mixed/upper case addressed in every spelling (valid, truncated, garbage, empty bodies); nine-digit timeouts in every unit; oracle: no panic, returns, response well-formed per reference decoder (or bare 405/415/505), user code <= 1x, received messages a prefix of the reference-decoded valid prefix, documented error classes never answered with success; distinct by (generator class, config, kind, outcome class); a registered decompressor that reports corruption from Close instead of Read (payload never reaches user code, peer gets an error; intact payloads delivered)")
 	run.Assume("handlers use WithReadMaxBytes(1 MiB)")
 	n := run.Pick(1500, 60000)
 	corp := buildCorpus(corpusSpec{protos: svc.Protocols, codecs: svc.Codecs, kinds: svc.Kinds, gzips: []bool{false, true}, counts: []int{1, 2}, scenarios: []string{"ok"}})
